@@ -160,6 +160,16 @@ def gen_case(seed: int, prop: str, tier: str) -> dict:
     # the handle itself before it reads, so what one object returns cannot depend on what the other one did in between
     case["share_handle"] = src["kind"] == "stub" and nclients == 2 and rng.random() < 0.4
     case["sweep"] = bool(locals().get("sweep_flag"))
+    # fault-injecting configuration (kept apart from the fault-free one): transient I/O errors armed between operations. An
+    # operation that meets one may fail; what any operation returns - then or later - must still be the right bytes.
+    if not case["sweep"] and rng.random() < 0.15:
+        hist2 = []
+        for op in hist:
+            if rng.random() < 0.08:
+                hist2.append(["eio", 0, rng.choice([1, 1, 2, 3, 5, 8])])
+            hist2.append(op)
+        case["hist"] = hist2
+        case["io_faults"] = True
     return case
 
 
@@ -338,12 +348,22 @@ def run_case(case: dict) -> RunResult:
                 break
             for op in case["hist"]:
                 kind, c = op[0], op[1]
+                if kind == "eio":
+                    for _, h in world.handles:
+                        if not h.closed:
+                            h.eio_at = h.reads + op[2]
+                    log.add("injector", "arm-eio", op[2], len(world.handles))
+                    continue
+                fired0 = world.faults_fired["eio_on_read"]
                 try:
                     s = get_stream(c)
                 except BudgetExceeded:
                     viol = v("budget", "open did not finish within the step budget")
                     break
                 except Exception as e:
+                    if world.faults_fired["eio_on_read"] > fired0:
+                        world.probes["stream.open_failed_on_injected_eio"] += 1
+                        continue  # opening met an injected I/O error: the client tries again at its next operation
                     viol = v("raised:" + type(e).__name__, f"open of client {c} raised {type(e).__name__}: {e}"[:300])
                     break
                 try:
@@ -399,6 +419,15 @@ def run_case(case: dict) -> RunResult:
                 except Exception as e:
                     tb = traceback.extract_tb(e.__traceback__)[-1]
                     log.add(f"c{c}", kind, op[2:], "raised:" + type(e).__name__)
+                    if world.faults_fired["eio_on_read"] > fired0:
+                        # the operation met an injected I/O error: failing is fine. The client re-positions and carries on.
+                        world.probes["stream.op_failed_on_injected_eio"] += 1
+                        try:
+                            s.seek(pos[c])
+                        except Exception as e2:
+                            viol = v("raised:" + type(e2).__name__, f"seek({pos[c]}) after a failed {kind} raised {type(e2).__name__}: {e2}"[:300])
+                            break
+                        continue
                     viol = v("raised:" + type(e).__name__, f"{op} (align {align}) raised {type(e).__name__}: {e} at "
                                                             f"{tb.filename.rsplit('/', 1)[-1]}:{tb.lineno}"[:300])
                     break
@@ -437,6 +466,10 @@ def run_case(case: dict) -> RunResult:
     if max(case["aligns"]) >= (1 << 20):
         res.probes["stream.align_ge_1MiB"] = 1
     res.probes["stream.fmt_" + sig["fmt"]] = 1
+    res.faults.update(world.faults_fired)
+    res.probes.update(world.probes)
+    if case.get("io_faults"):
+        res.probes["stream.config_io_faults"] = 1
     return res
 
 
